@@ -25,4 +25,4 @@ def suites(tier):
     for tail in ((0, 2) if q else (0, 1, 2, 4)):
         cfg = dict(tail=tail, ops=6 if q else 8)
         jobs.append(dict(id=jid("chunks", cfg), func="zzH_C06_chunks", cfg=cfg))
-    return [dict(SRC, name="src", jobs=jobs, generate=gen)]
+    return [src_suite("src", jobs, readerBufferSize=3, readerSlabSize=6, chunkSize=3)]
